@@ -4,10 +4,12 @@ import itertools
 ID = "C10"
 HARNESSES = {
     "pool": dict(sources=["scen/pool.cpp"], flavour="asan"),
+    "rx": dict(name="sockops", sources=["scen/sockops.cpp", "vos/vos.cpp"], flavour="asan", mode="C10rx", timeout=30),
     "default": dict(name="pool", sources=["scen/pool.cpp"], flavour="asan"),
 }
 RULE = ("histories of get / release(any order, some on another thread) / user-fill on BufferPool(N, reserve), "
-        "(N,reserve) in {0,1,2,3,5}x{0,1,64,4096}; thorough adds every history of length <= 7 over N<=3. "
+        "(N,reserve) in {0,1,2,3,5}x{0,1,64,4096}; thorough adds every history of length <= 7 over N<=3; plus buffered TCP/UDP sockets with "
+        "rxBufCount N in {0,1,2,3} driven through value(kept)/timeout/failing recv/failing poll/peer-close receives and drops in any order. "
         "A case is non-trivial when it contains at least one release followed by a get (recycling exercised) "
         "or reaches the limit; distinct = distinct op sequences.")
 ASSUMPTIONS = [
@@ -16,7 +18,7 @@ ASSUMPTIONS = [
     "capacity() is compared as a lower bound (libstdc++ may over-allocate)",
 ]
 TRUSTED = ["C++ std::string/std::deque/std::stack semantics (modelled, not verified)"]
-ALL_TAGS = ["get.alloc", "get.idle", "get.throw", "rel", "fill"]
+ALL_TAGS = ["get.alloc", "get.idle", "get.throw", "rel", "fill", "rx.value", "rx.nothing", "rx.exn", "rx.full", "rx.drop"]
 EXHAUSTIVE = {"thorough": False}
 
 
@@ -27,7 +29,7 @@ def nontrivial(ops, tags):
             seen_rel = True
         elif o == "get" and seen_rel:
             return True
-    return "get.throw" in tags
+    return "get.throw" in tags or "rx.full" in tags or ("rx.exn" in tags or "rx.nothing" in tags) and "rx.value" in tags
 
 
 def rand_history(rng, n, r, length):
@@ -43,9 +45,44 @@ def rand_history(rng, n, r, length):
     return ops
 
 
+def rx_history(rng):
+    """buffered socket with N receive buffers: receives with every outcome (value kept by the user, timeout, failing recv,
+    peer close), drops in any order; the pool must refuse exactly when the user holds N"""
+    n = rng.choice([1, 1, 2, 3, 0])
+    size = rng.choice([1, 7, 64])
+    udp = rng.random() < 0.35
+    if udp:
+        ops = ["udp %s buffered rx %d %d" % (rng.choice(["v4", "v6"]), n, size)]
+    else:
+        ops = ["tcp %s buffered %s rx %d %d" % (rng.choice(["v4", "v6"]), rng.choice(["cli", "srv"]), n, size)]
+    rcv = "recvfromhold" if udp else "recvhold"
+    closed = False
+    for _ in range(rng.randrange(3, 16)):
+        x = rng.random()
+        if x < 0.30 and not closed:
+            ops.append(("pdgram %d 5" if udp else "psend %d 5") % rng.choice([1, 3, 64, 200]))
+        elif x < 0.65:
+            y = rng.random()
+            if y < 0.15:
+                ops.append("os %s fail 104" % ("recvfrom" if udp else "recv"))
+                ops.append("os poll ready")
+            elif y < 0.25:
+                ops.append("os poll fail 12")
+            ops.append("%s %d" % (rcv, rng.choice([0, 0, 5])))
+        elif x < 0.9:
+            ops.append("dropbuf %d" % rng.randrange(4))
+        elif not udp and not closed:
+            ops.append("pclose"); closed = True
+    # the decisive probe: one more receive
+    ops.append("%s 0" % rcv)
+    return ops
+
+
 def gen(rng, tier):
     cases = []
     k = 0
+    for i in range(250 if tier == "quick" else 6000):
+        cases.append(("rx", "r%d" % i, rx_history(rng)))
     count = 600 if tier == "quick" else 20000
     for i in range(count):
         n = rng.choice([0, 1, 2, 3, 5])
